@@ -258,6 +258,20 @@ def run(run):
                'feedback filter: Integrator / error model replaced by their contracts; decided here: one 2D integrator, every written-back state is the 2D correction of the latest integrator state, the returned trajectory is the integrator\'s table. With (c) "2D correct_pva returns alt and VD unchanged" (engine A + FP lemma) and the integrator invariant this gives the frozen altitude of the filter trajectory',
                'reported sd of down / VD exactly zero: T_out (2D) rows identically zero (engine A) + FP lemmas for 1*v + (-v)*1, zero products and sqrt, finite covariance entries assumed',
                'LAPACK / einsum summation order is modelled as left-to-right accumulation with zero terms in any position')
+    # measurement objects in the no-altitude mode return two rows WHATEVER they were asked before (a 3D
+    # query on the same object first): concrete call sequences on the real classes (the symbolic
+    # version of "queries are independent of earlier queries" is a family of C06)
+    seq_specs = [{'property': 'C06', 'kind': 'numeric', 'check': 'sequence', 'point': {}, 'params': {'wa': w_, 'rates': True, 'cls': c_}}
+                 for c_ in ('Position', 'Position+lever', 'NedVelocity', 'NedVelocity+lever') for w_ in (True, False)]
+    for sp_, r_ in zip(seq_specs, common.run_replays(seq_specs)):
+        run.family('2D measurement rows after a 3D query on the same object', 1, 0 if r_.get('violated') or r_.get('error') else 1, 0.0)
+        if r_.get('error'):
+            run.error('measurement call-sequence replay failed to run: %s' % r_['error'])
+        elif r_.get('violated'):
+            sp2 = dict(sp_)
+            sp2['observed'] = r_.get('detail')
+            run.violation('%s: %s' % (sp_['params']['cls'], str(r_.get('detail'))[:300]), common.write_replay(PROP, sp2))
+            break
     S13 = _scenario_class()
     scen = []
     for m in ((0, 1, 2, 3) if run.tier == 'quick' else (0, 1, 2, 3, 4)):
